@@ -423,6 +423,7 @@ scanfrom(const char *name, FILE *file)
 	s->buf.len = 0;
 	s->buf.cap = 0;
 	s->usebuf = false;
+	s->sawspace = false;
 	s->loc.file = name;
 	s->loc.line = 1;
 	s->loc.col = 0;
